@@ -27,10 +27,31 @@ def build(rows, rng, ok_range=(0.05, 0.95)):
     td = np.array([[(0.0 if t < 0 else 1.0) for t in r["t"]] for r in rows], dtype=float)
     sn = np.array(["s%d" % r["s"] for r in rows], dtype=str)
     pn = np.array(["p%d" % i for i in range(n)], dtype=str)            # one plate per row: any mask is plate-uniform
-    obs = np.array([CLASSVAL[r["c"]] if CLASSVAL[r["c"]] is not None else rng.uniform(*ok_range) for r in rows], dtype=float)
+    def okval():
+        # mostly ordinary viabilities; sometimes values at the edges of the documented transformation (inside the clipping bands)
+        u = rng.random()
+        if u < 0.15:
+            return float(rng.choice([0.004, 1e-9, 0.0099, 0.0101]))
+        if u < 0.3:
+            return float(rng.choice([0.996, 0.9901, 1 - 1e-12, 0.9899]))
+        return rng.uniform(*ok_range)
+    obs = np.array([CLASSVAL[r["c"]] if CLASSVAL[r["c"]] is not None else okval() for r in rows], dtype=float)
     mask = np.array([bool(r["m"]) for r in rows])
     return Screen(treatment_names=tn, treatment_doses=td, sample_names=sn, plate_names=pn, observations=obs, observation_mask=mask,
                   control_treatment_name="ctl", sample_mapping=SMAP, treatment_mapping=TMAP)
+
+
+def index_maps_ok(wm):
+    """part of the data handed to the sampler: for every sample / first / second treatment id the positions of its training data"""
+    n = len(wm.y)
+    for maps, col in ((wm.cline_idxs, wm.cline), (wm.dd1_idxs, wm.dd1), (wm.dd2_idxs, wm.dd2)):
+        want = {}
+        for i in range(n):
+            want.setdefault(int(col[i]), []).append(i)
+        got = {int(k): [int(x) for x in v] for k, v in maps.items() if len(v)}
+        if got != want:
+            return False
+    return True
 
 
 def train_path(model, scr):
@@ -66,6 +87,25 @@ def check_case(e, rng):
             got = (float(wm.y[i]), int(wm.cline[i]), int(wm.dd1[i]), int(wm.dd2[i]))
             if (got[1], got[2], got[3]) != (w["cl"], w["dd1"], w["dd2"]) or not close(got[0], wy, mag, 5e-4):
                 return "%s training datum %d = %s, documented (%.9g, %d, %d, %d) [row %d]" % (kind, i, got, wy, w["cl"], w["dd1"], w["dd2"], w["row"])
+        if not index_maps_ok(wm):
+            return "%s: the per-sample / per-treatment index lists of the training data do not list each datum exactly once under its own ids" % kind
+        if kind == "combo" and len(want) >= 2:
+            # the same observed experiments handed over in two calls (plate by plate, as a running screen would): same training set
+            m2 = SC.SparseDrugCombo(experiment_space=sp, n_embedding_dimensions=2)
+            orows = [w["row"] for w in want]
+            k = 1 + int(rng.integers(len(orows) - 1))
+            for part in (orows[:k], orows[k:]):
+                sel = np.zeros(scr.size, dtype=bool)
+                sel[part] = True
+                st2, r2 = outcome(m2.add_observations, scr.subset(sel))
+                if st2 != "ok":
+                    return "combo refused the observed experiments when handed over in two calls: %s" % r2
+            w2 = m2.wrapped_model
+            a = [(bits(float(w2.y[i])), int(w2.cline[i]), int(w2.dd1[i]), int(w2.dd2[i])) for i in range(len(w2.y))]
+            b = [(bits(float(wm.y[i])), int(wm.cline[i]), int(wm.dd1[i]), int(wm.dd2[i])) for i in range(len(wm.y))]
+            idx_ok = index_maps_ok(w2)
+            if m2.n_obs() != len(want) or a != b or not idx_ok:
+                return "combo handed the observed experiments in two calls holds %s (index maps consistent: %s), in one call %s" % (a, idx_ok, b)
         if kind == "inter":
             gt = {(int(a), int(b)): float(v) for (a, b), v in model.single_effect_lookup.items()}
             wt = {(x["s"], x["t"]): ev(x["v"], env) for x in e["table"]}
